@@ -20,10 +20,16 @@ pub enum Verdict {
 
 pub struct Query {
     pub text: String,
+    /// the same query as a straight-line C program for CBMC (second back end, used when cvc5 gives up)
+    pub ctext: String,
     /// canonical index -> input name
     pub vars: Vec<String>,
     pub nodes: usize,
     pub unsupported: Option<String>,
+}
+
+fn clit(b: u32) -> String {
+    format!("F(0x{:08x}u)", b)
 }
 
 fn lit(b: u32) -> String {
@@ -36,6 +42,8 @@ struct Canon<'a> {
     vars: Vec<String>,
     decls: String,
     defs: String,
+    cdecls: String,
+    cdefs: String,
     nodes: usize,
     unsupported: Option<String>,
 }
@@ -86,6 +94,15 @@ impl<'a> Canon<'a> {
         let nm = format!("v{}", k);
         self.vars.push(vi.name.clone());
         writeln!(self.decls, "(declare-const {} (_ FloatingPoint 8 24))", nm).unwrap();
+        writeln!(self.cdecls, "  float {} = nondet_float();", nm).unwrap();
+        if vi.dom != Dom::AnyBits {
+            let range = format!("({} <= {nm} && {nm} <= {})", clit(vi.lo.to_bits()), clit(vi.hi.to_bits()), nm = nm);
+            if vi.zero_ok {
+                writeln!(self.cdecls, "  __CPROVER_assume(BITS({}) == 0u || {});", nm, range).unwrap();
+            } else {
+                writeln!(self.cdecls, "  __CPROVER_assume({});", range).unwrap();
+            }
+        }
         if vi.dom != Dom::AnyBits {
             let range = format!("(and (fp.leq {} {}) (fp.leq {} {}))", lit(vi.lo.to_bits()), nm, nm, lit(vi.hi.to_bits()));
             if vi.zero_ok {
@@ -118,7 +135,48 @@ impl<'a> Canon<'a> {
             Op::Var => unreachable!(),
         };
         writeln!(self.defs, "(define-fun {} () (_ FloatingPoint 8 24) {})", nm, body).unwrap();
+        let (ca, cb) = (self.cterm(n.a), self.cterm(n.b));
+        let cbody = match n.op {
+            Op::Add => format!("{} + {}", ca, cb),
+            Op::Sub => format!("{} - {}", ca, cb),
+            Op::Mul => format!("{} * {}", ca, cb),
+            Op::Div => format!("{} / {}", ca, cb),
+            Op::Min => format!("fminf({}, {})", ca, cb),
+            Op::Max => format!("fmaxf({}, {})", ca, cb),
+            Op::Abs => format!("fabsf({})", ca),
+            Op::Neg => format!("-{}", ca),
+            Op::Round => format!("roundf({})", ca),
+            Op::Rem => format!("fmodf({}, {})", ca, cb),
+            Op::Var => unreachable!(),
+        };
+        writeln!(self.cdefs, "  float {} = {};", nm, cbody).unwrap();
         self.name.insert(j, nm);
+    }
+    /// C term of an already named operand
+    fn cterm(&self, x: Arg) -> String {
+        match x {
+            Arg::K(b) => clit(b),
+            Arg::N(i) => self.name.get(&i).cloned().unwrap_or_else(|| "0.0f".into()),
+        }
+    }
+    fn catom(&self, cmp: Cmp, a: Arg, b: Arg) -> String {
+        let o = match cmp {
+            Cmp::Lt => "<",
+            Cmp::Le => "<=",
+            Cmp::Eq => "==",
+        };
+        format!("({} {} {})", self.cterm(a), o, self.cterm(b))
+    }
+    fn cbx(&self, b: &Bx) -> String {
+        match b {
+            Bx::T => "1".into(),
+            Bx::F => "0".into(),
+            Bx::Cmp(cmp, x, y) => self.catom(*cmp, *x, *y),
+            Bx::IsNan(x) => format!("isnan({})", self.cterm(*x)),
+            Bx::Not(x) => format!("!{}", self.cbx(x)),
+            Bx::And(v) => format!("({})", v.iter().map(|x| self.cbx(x)).collect::<Vec<_>>().join(" && ")),
+            Bx::Or(v) => format!("({})", v.iter().map(|x| self.cbx(x)).collect::<Vec<_>>().join(" || ")),
+        }
     }
     fn atom(&mut self, cmp: Cmp, a: Arg, b: Arg) -> String {
         let o = match cmp {
@@ -173,7 +231,8 @@ pub fn cone<'a>(pc: &'a [Decision], seed: VarSet) -> (Vec<&'a Decision>, VarSet)
 pub fn build_query(c: &Ctx, pc: &[Decision], goal: &Bx) -> Query {
     let seed = goal.vars(c);
     let (atoms, _set) = cone(pc, seed);
-    let mut k = Canon { c, name: StdMap::new(), vars: vec![], decls: String::new(), defs: String::new(), nodes: 0, unsupported: None };
+    let mut k = Canon { c, name: StdMap::new(), vars: vec![], decls: String::new(), defs: String::new(), cdecls: String::new(), cdefs: String::new(), nodes: 0, unsupported: None };
+    let mut cassume = String::new();
     let mut asserts = String::new();
     for d in &atoms {
         let t = k.atom(d.cmp, d.a, d.b);
@@ -182,9 +241,18 @@ pub fn build_query(c: &Ctx, pc: &[Decision], goal: &Bx) -> Query {
         } else {
             writeln!(asserts, "(assert (not {}))", t).unwrap();
         }
+        writeln!(cassume, "  __CPROVER_assume({}{});", if d.side { "" } else { "!" }, k.catom(d.cmp, d.a, d.b)).unwrap();
     }
     let g = k.bx(goal);
     writeln!(asserts, "(assert {})", g).unwrap();
+    // C rendering: the goal is satisfiable iff the assertion `!goal` can fail
+    let ctext = format!(
+        "#include <math.h>\nfloat nondet_float();\nstatic inline float F(unsigned u) {{ union {{ unsigned u; float f; }} x; x.u = u; return x.f; }}\nstatic inline unsigned BITS(float f) {{ union {{ unsigned u; float f; }} x; x.f = f; return x.u; }}\nint main() {{\n{}{}{}  __CPROVER_assert(!{}, \"goal\");\n  return 0;\n}}\n",
+        k.cdecls,
+        k.cdefs,
+        cassume,
+        k.cbx(goal)
+    );
     let mut text = String::from("(set-logic QF_FP)\n");
     text.push_str(&k.decls);
     text.push_str(&k.defs);
@@ -194,7 +262,7 @@ pub fn build_query(c: &Ctx, pc: &[Decision], goal: &Bx) -> Query {
         let names: Vec<String> = (0..k.vars.len()).map(|i| format!("v{}", i)).collect();
         writeln!(text, "(get-value ({}))", names.join(" ")).unwrap();
     }
-    Query { text, vars: k.vars, nodes: k.nodes, unsupported: k.unsupported }
+    Query { text, ctext, vars: k.vars, nodes: k.nodes, unsupported: k.unsupported }
 }
 
 // ------------------------------------------------------------------ model parsing
@@ -303,6 +371,7 @@ pub struct SolverStats {
     pub max_time_s: f64,
     pub cross_checked: u64,
     pub cross_disagree: u64,
+    pub cbmc_decided: u64,
 }
 
 pub struct Solver {
@@ -315,6 +384,7 @@ pub struct Solver {
     /// every k-th decided query is repeated on z3 (0: never)
     pub cross_every: u64,
     pub dump_dir: Option<String>,
+    pub cbmc_fallback: bool,
 }
 
 fn h64(s: &str) -> u64 {
@@ -395,6 +465,48 @@ pub fn run_z3(text: &str, nvars: usize, timeout_s: u64) -> Verdict {
     }
 }
 
+/// CBMC 6.11 + kissat on the C rendering: `VERIFICATION SUCCESSFUL` = unsat, a failed assertion = sat with a trace.
+pub fn run_cbmc(ctext: &str, nvars: usize, timeout_s: u64) -> Verdict {
+    let dir = std::env::temp_dir();
+    let path = dir.join(format!("verif-q-{}-{:016x}.c", std::process::id(), h64(ctext)));
+    if std::fs::write(&path, ctext).is_err() {
+        return Verdict::Unknown("cannot write C query".into());
+    }
+    let p = path.to_string_lossy().to_string();
+    let r = run_process("cbmc", &[&p, "--no-standard-checks", "--external-sat-solver", "kissat", "--trace"], "", timeout_s);
+    let _ = std::fs::remove_file(&path);
+    match r {
+        Ok(out) => {
+            if out.contains("VERIFICATION SUCCESSFUL") {
+                return Verdict::Unsat;
+            }
+            if out.contains("VERIFICATION FAILED") {
+                // trace lines:  v3=1.5f (00111111 11000000 00000000 00000000)
+                let mut m = vec![None; nvars];
+                for l in out.lines() {
+                    let l = l.trim();
+                    if let Some(rest) = l.strip_prefix('v') {
+                        if let Some((idx, tail)) = rest.split_once('=') {
+                            if let (Ok(i), Some(p0)) = (idx.parse::<usize>(), tail.find('(')) {
+                                let bits: String = tail[p0 + 1..].chars().take_while(|c| *c != ')').filter(|c| *c == '0' || *c == '1').collect();
+                                if i < nvars && bits.len() == 32 {
+                                    m[i] = u32::from_str_radix(&bits, 2).ok();
+                                }
+                            }
+                        }
+                    }
+                }
+                return match m.into_iter().collect::<Option<Vec<u32>>>() {
+                    Some(v) => Verdict::Sat(v),
+                    None => Verdict::Unknown("cbmc: failed assertion but trace incomplete".into()),
+                };
+            }
+            Verdict::Unknown("cbmc: timeout or no verdict".into())
+        }
+        Err(e) => Verdict::Unknown(e),
+    }
+}
+
 impl Solver {
     pub fn new(timeout_s: u64) -> Solver {
         Solver {
@@ -405,6 +517,7 @@ impl Solver {
             stats: SolverStats::default(),
             cross_every: std::env::var("VERIF_CROSS_EVERY").ok().and_then(|s| s.parse().ok()).unwrap_or(0),
             dump_dir: std::env::var("VERIF_DUMP").ok(),
+            cbmc_fallback: std::env::var("VERIF_CBMC").map(|v| v == "1").unwrap_or(false),
         }
     }
 
@@ -546,7 +659,15 @@ impl Solver {
             return (Verdict::Unknown("not attempted (cap 0)".into()), 0.0, false);
         }
         let t0 = Instant::now();
-        let v = run_cvc5(&q.text, q.vars.len(), self.timeout_s);
+        let mut v = run_cvc5(&q.text, q.vars.len(), self.timeout_s);
+        // second back end (thorough tier): CBMC + kissat on the C rendering, same cap
+        if matches!(v, Verdict::Unknown(_)) && self.cbmc_fallback && self.timeout_s >= 10 {
+            let v2 = run_cbmc(&q.ctext, q.vars.len(), self.timeout_s);
+            if !matches!(v2, Verdict::Unknown(_)) {
+                self.stats.cbmc_decided += 1;
+                v = v2;
+            }
+        }
         if matches!(v, Verdict::Unknown(_)) {
             self.gave_up.insert(key, self.timeout_s);
         }
